@@ -42,18 +42,22 @@ PROPS = {
         'lean_targets': ['Cqos.Props.C14'],
         'theorems': ['Cqos.C14.c14_fair_total', 'Cqos.C14.c14_fair_frame', 'Cqos.C14.c14_fair_shape',
                      'Cqos.C14.c14_rate_total', 'Cqos.C14.c14_rate_frame', 'Cqos.C14.c14_rate_incs',
-                     'Cqos.C14.c14_rate_mono', 'Cqos.C14.c14_v1_eq_v2'],
+                     'Cqos.C14.c14_rate_mono', 'Cqos.C14.c14_rate_near', 'Cqos.C14.near_of_nearHalf',
+                     'Cqos.C14.rateIncs_none_near', 'Cqos.C14.c14_v1_eq_v2'],
         'runs': [{'cmd': 'pure', 'args': ['-family', 'c14']}],
         'monitor_prefix': ['C14'],
         'level': 'proof',
         'level_text': ('Lean theorems for every priority list, dividend and initial map: Fair and Rate add exactly the '
                        'dividend and touch no unlisted entry (Rate: for ANY rounding function, so independent of floating '
                        'point), Fair\'s increments are floor(d/n) plus one for the first d mod n, Rate\'s increments are '
-                       'non-increasing when the rounded parts are, v1 = v2; the model is tied to all four Go functions by '
+                       'non-increasing when the rounded parts are, and every increment is within n/2 of the exact proportional '
+                       'share d*p/S whenever each rounded part is within 1/2 of it (c14_rate_near: leftover to the first priority '
+                       'and the truncating return both covered), v1 = v2; the model is tied to all four Go functions by '
                        'exhaustive small-scope + tie/truncation/near-equal/large-magnitude differential runs'),
-        'level_note': ('partial in one respect: the "within n/2 of the exact share" clause and the antitone hypothesis on the '
-                       'IEEE rounding are not kernel-proved (Float is opaque); they are evaluated on every executed call by the '
-                       'model driver (float-hypothesis-fails) and by the monitor on the implementation\'s result'),
+        'level_note': ('partial in one respect: the two facts about the IEEE rounding that the order and n/2 theorems take as hypotheses '
+                       '(rounded parts non-increasing along the list; each within 1/2 of the exact share) are not kernel-proved '
+                       '(Float is opaque); they are evaluated on every executed call by the model driver (a failure shows as '
+                       'float-hypothesis-fails = disagreement) and the n/2 bound itself is monitored on the implementation\'s result'),
         'rule': ('Fair/Rate/FairDivider/RateDivider on: every sorted duplicate-free list over a small alphabet x dividend '
                  'range (exhaustive), nil/pre-filled maps, exact-tie dividends, truncation (near-equal large priorities), '
                  'dividends around multiples of sum and of n, skewed lists, random magnitudes up to 2^40 / 2^32; '
@@ -176,10 +180,11 @@ PROPS = {
         'assumptions': ['monotone clock (time.Now / time.Since)'],
     },
     'C10': {
-        'lean_targets': ['Cqos.Props.C10'],
+        'lean_targets': ['Cqos.Props.C10', 'Cqos.Facts.Expect'],
+        'facts': True,
         'theorems': ['Cqos.C10.c10_interval_v2', 'Cqos.C10.c10_interval_v2_nonpositive', 'Cqos.C10.c10_interval_v2_errors',
                      'Cqos.C10.c10_interval_v1', 'Cqos.C10.f_step', 'Cqos.C10.f_run', 'Cqos.C10.c10_passAt_le_oldest',
-                     'Cqos.C10.c10_flush'],
+                     'Cqos.C10.c10_flush', 'Cqos.Facts.c10_one_ticker'],
         'runs': [{'cmd': 'pure', 'args': ['-family', 'c10']}, {'cmd': 'jstepper', 'args': ['-family', 'mixed']},
                  {'cmd': 'blackbox', 'args': ['-scenario', 'join']}],
         'monitor_prefix': ['C10'],
@@ -278,7 +283,7 @@ PROPS = {
                      'Cqos.C15.c15_args_sublist_recalc', 'Cqos.C15.c15_new_divider_bad', 'Cqos.C15.c15_new_too_small',
                      'Cqos.C15.c15_unfixed_counterexample'],
         'runs': [{'cmd': 'stepper', 'args': ['-family', 'faulty']}, {'cmd': 'pure', 'args': ['-family', 'c18']},
-                 {'cmd': 'blackbox', 'args': ['-scenario', 'faulty']}],
+                 {'cmd': 'stepper', 'args': ['-family', 'dynamic']}, {'cmd': 'blackbox', 'args': ['-scenario', 'faulty']}],
         'monitor_prefix': ['C15'],
         'level': 'proof',
         'level_text': ('Lean theorems for every action list and every (faulty, stateful) divider: each recorded divider call has a '
@@ -294,10 +299,11 @@ PROPS = {
         'assumptions': ['H and totals < 2^63 (the unsigned difference after-before does not wrap onto the dividend)'],
     },
     'C07': {
-        'lean_targets': ['Cqos.Props.C07'],
+        'lean_targets': ['Cqos.Props.C07', 'Cqos.Props.C07p'],
         'theorems': ['Cqos.C07.tinv_step', 'Cqos.C07.tinv_run', 'Cqos.C07.c07_v2_only_then', 'Cqos.C07.c07_v1_graceful_only_then',
                      'Cqos.C07.stopped_false_v2', 'Cqos.C07.c07_no_error_calc', 'Cqos.C07.c07_no_error_recalc',
-                     'Cqos.C15.c15_drain_progress'],
+                     'Cqos.C15.c15_drain_progress', 'Cqos.C07.c07_prompt_step', 'Cqos.C07.c07_prompt',
+                     'Cqos.C07.c07_prompt_reachable', 'Cqos.C07.c07_prompt_unique', 'Cqos.C07.v2_static_run'],
         'runs': [{'cmd': 'stepper', 'args': ['-family', 'terminate']}, {'cmd': 'stepper', 'args': ['-family', 'mixed']},
                  {'cmd': 'stepper', 'args': ['-family', 'dynamic']},
                  {'cmd': 'blackbox', 'args': ['-scenario', 'prio2,prio1,simple1']}],
@@ -307,8 +313,12 @@ PROPS = {
                        'drained (channel closed and empty), nothing in flight and no release outstanding; the same for v1 when it '
                        'terminated without Stop/cancel (GracefulStop); with a sum-rule divider calcTactic/recalcTactic never report '
                        'an error; in the drain state pending releases can always be consumed and termination follows once none is '
-                       'left. Tied by the stepper (isDrainedInputs, waitZeroActual, base on closing/closed inputs)'),
-        'level_note': 'partial: wall-clock promptness is a runtime matter; ' + 'trusted: correspondence by differential stepping (exact equality of actual/tactic/strategic/priorities/drained/output after each op); unbuffered inputs only open and empty; New/main/loop glue by black-box runs and facts',
+                       'left. Promptness (v2): in EVERY reachable state in which all inputs are closed and empty, nothing is in '
+                       'flight and no release is outstanding - whatever the control point - the discipline reaches done by its own '
+                       'steps alone within 5n+12 of them (no release, arrival or timer needed), and what is enabled there is only '
+                       'that step, irrelevant environment actions, or the interrupter tick winning Go\'s select on an unbuffered '
+                       'closed input (c07_prompt_reachable, c07_prompt_unique). Tied by the stepper (isDrainedInputs, waitZeroActual, base on closing/closed inputs)'),
+        'level_note': 'partial: the wall-clock length of a step and the select choice on an unbuffered closed input are runtime matters; v1 promptness of GracefulStop is not stated as a theorem (F1 shows it false for zero-share configurations); ' + 'trusted: correspondence by differential stepping (exact equality of actual/tactic/strategic/priorities/drained/output after each op); unbuffered inputs only open and empty; New/main/loop glue by black-box runs and facts',
         'rule': 'stepper families terminate and mixed: inputs closed at different rounds, releases withheld / grouped, graceful',
         'trusted_base': [],
         'assumptions': ['priority keys of the Inputs map are distinct (Go map)'],
@@ -376,7 +386,8 @@ PROPS = {
                      'Cqos.C06.c06_head_served', 'Cqos.C06.c06_recalc_alone', 'Cqos.C06.c06_v1_zero_share_starves',
                      'Cqos.C15.c15_drain_progress', 'Cqos.C16.c16_exit_bound'],
         'runs': [{'cmd': 'stepper', 'args': ['-family', 'single']}, {'cmd': 'stepper', 'args': ['-family', 'mixed']},
-                 {'cmd': 'stepper', 'args': ['-family', 'terminate']}],
+                 {'cmd': 'stepper', 'args': ['-family', 'terminate']},
+                 {'cmd': 'blackbox', 'args': ['-scenario', 'alone']}],
         'monitor_prefix': ['C06'],
         'level': 'proof',
         'level_text': ('Lean theorems (safety-shaped progress facts, every action list): a v2 discipline never waits for a release while '
